@@ -231,6 +231,9 @@ func (s *sys) apply(o op) (err error, storeOps int, panicked string) {
 		if c, gerr := s.conn.Get(ctx, s.nth("C:", o.A)); gerr == nil {
 			plug = c.Plugin
 		}
+		if o.Arg == "newplugin" { // a plugin version bump
+			plug += "@v2"
+		}
 		_, err = s.orc.Connectors.Update(ctx, s.nth("C:", o.A), plug, connector.Config{Name: name, Settings: map[string]string{"v": o.Arg}})
 	case "setConnectorState": // what a finished run leaves behind: a stored source position
 		_, err = s.conn.SetState(ctx, s.nth("C:", o.A), connector.SourceState{Position: []byte("p7")})
@@ -258,7 +261,15 @@ func (s *sys) apply(o op) (err error, storeOps int, panicked string) {
 		if o.Arg == "neg" {
 			w = -1
 		}
-		_, err = s.orc.Processors.Update(ctx, s.nth("R:", o.A), "", processor.Config{Settings: map[string]string{"v": o.Arg}, Workers: w})
+		settings := map[string]string{"v": o.Arg}
+		if o.Arg == "egressbad" { // host-reserved settings that do not parse (a wildcard allow entry, a negative timeout)
+			settings = map[string]string{"v": o.Arg, "sdk.egress.allow": "https://*.example.com", "sdk.egress.timeout": "-3s", "sdk.egress.maxResponseBytes": "many"}
+		}
+		plug := "proc"
+		if o.Arg == "noplugin" {
+			plug = ""
+		}
+		_, err = s.orc.Processors.Update(ctx, s.nth("R:", o.A), plug, processor.Config{Settings: settings, Workers: w})
 	case "deleteProcessor":
 		err = s.orc.Processors.Delete(ctx, s.nth("R:", o.A))
 	default:
@@ -321,7 +332,7 @@ func (s *sys) alphabet(thorough bool) []op {
 		if !s.live("C:", c) {
 			continue
 		}
-		out = append(out, op{Kind: "updateConnector", A: c, Arg: "u"}, op{Kind: "updateConnector", A: c, Arg: "noname"}, op{Kind: "deleteConnector", A: c}, op{Kind: "setConnectorState", A: c})
+		out = append(out, op{Kind: "updateConnector", A: c, Arg: "u"}, op{Kind: "updateConnector", A: c, Arg: "noname"}, op{Kind: "updateConnector", A: c, Arg: "newplugin"}, op{Kind: "deleteConnector", A: c}, op{Kind: "setConnectorState", A: c})
 		if nr < maxR {
 			out = append(out, op{Kind: "createProcessor", B: c, Arg: "conn"})
 		}
@@ -330,7 +341,7 @@ func (s *sys) alphabet(thorough bool) []op {
 		if !s.live("R:", r) {
 			continue
 		}
-		out = append(out, op{Kind: "updateProcessor", A: r, Arg: "u"}, op{Kind: "updateProcessor", A: r, Arg: "neg"}, op{Kind: "deleteProcessor", A: r})
+		out = append(out, op{Kind: "updateProcessor", A: r, Arg: "u"}, op{Kind: "updateProcessor", A: r, Arg: "neg"}, op{Kind: "updateProcessor", A: r, Arg: "egressbad"}, op{Kind: "updateProcessor", A: r, Arg: "noplugin"}, op{Kind: "deleteProcessor", A: r})
 	}
 	return out
 }
